@@ -1,5 +1,6 @@
 import Evl.Model.Encrypt
 import Evl.Lemmas.EncryptTree
+import Evl.Lemmas.EncryptTag
 /-!
 # C09 — encrypt.Filter leaks no classified plaintext (secure default, fails closed)
 
@@ -346,5 +347,124 @@ example : ∃ v', process demoCtx false (.struct (.cons (.field true (some sSecr
   decide
 
 end Tree
+
+/-! ### Taggable maps (M7g `EncryptTag`) -/
+section Tagged
+open Evl.EncryptTree Evl.EncryptTag
+
+/-- a pointer tag keeps a value exactly when a struct tag would: the classification is public, or
+the operation in force for it is none -/
+theorem tagAction_keep_iff (t : TagInfo) : tagAction t = .keep ↔ action t = .keep := by
+  unfold tagAction action
+  by_cases h : t.cls = .pub ∨ t.op = .none
+  · simp [h]
+  · simp only [h, if_false]
+    cases hc : t.cls <;> cases ho : t.op <;> simp
+
+/-- ... so a pointer tag that keeps its value names it public or is overridden to none (`tag_secure`) -/
+theorem pointer_tag_secure (t : PTag) (ov : Overrides) (h : tagAction (fromTagString t.tagString ov) = .keep) :
+    (splitComma t.tagString).1 = sPublic ∨ lookupOv ov (splitComma t.tagString).1 = some .none :=
+  tag_secure _ ov ((tagAction_keep_iff _).mp h)
+
+/-- a pointer tag whose classification is none of public / sensitive / secret (misspelt, mixed case,
+empty) and has no override is an error: the value can be neither classified nor redacted in place, so
+Process fails as a whole rather than let it pass -/
+theorem misspelt_pointer_tag_fails (tag : Bytes) (ov : Overrides)
+    (h0 : lookupOv ov (splitComma tag).1 = none)
+    (h1 : (splitComma tag).1 ≠ sPublic) (h2 : (splitComma tag).1 ≠ sSensitive) (h3 : (splitComma tag).1 ≠ sSecret) :
+    tagAction (fromTagString tag ov) = .error := by
+  unfold fromTagString
+  simp only [h0, h1, h2, h3, if_false]
+  decide
+
+/-- **No leak through a Taggable map.**  A Taggable map (distinct keys, its non-string values guarded
+the way the values of an untagged map have to be) with any list of *protecting* pointer tags — through
+nested maps and pointers to maps, found or not, in any order, also naming the same map twice — comes
+out with nothing readable: tagged strings were redacted / encrypted / HMAC-ed, every other string
+(no tag names it: unclassified) was redacted. -/
+theorem tagged_noleak (c : Ctx) (ewi : Bool) (tags : List PTag) (es : Items) (v' : V)
+    (hk : keysOK [] es = true) (hg : guardedEntries c es = true)
+    (hp : ∀ t ∈ tags, tagAction (fromTagString t.tagString c.ov) ≠ .keep)
+    (h : processTagged c ewi tags es = .filtered v') : plains v' = [] := by
+  obtain ⟨s, es', hs, he, rfl⟩ := processTagged_filtered h
+  obtain ⟨hi, _⟩ := applyTags_inv c tags _ s hp hs hk (guarded_inv c es [] hk hg)
+  simp only [plains]
+  exact filtT_clean c s.marks s.es es' he hi
+
+/-- **Secure default under any tags.**  A string under a top-level key that no pointer tag names (no
+tag's pointer starts with that key) is unclassified: it comes out redacted, whatever the other tags,
+the overrides and the key material are. -/
+theorem untagged_key_redacted (c : Ctx) (ewi : Bool) (tags : List PTag) (es es' : Items) (k m : Nat)
+    (hf : find k es = some (.leaf (.plain m)))
+    (hn : ∀ t ∈ tags, t.path.head? ≠ some k)
+    (h : processTagged c ewi tags es = .filtered (.map es')) : find k es' = some (.leaf .redacted) := by
+  obtain ⟨s, es1, hs, he, hv⟩ := processTagged_filtered h
+  injection hv with hv
+  subst hv
+  have hk : onlyKept c k tags := fun t ht hh => absurd hh (hn t ht)
+  obtain ⟨f1, m1, c1⟩ := applyTags_key c k m tags _ s hk hs hf (by simp)
+  obtain ⟨v', g1, g2⟩ := filtT_find c s.marks k _ s.es es' he f1
+  have hnot : s.marks.contains [k] = false := by
+    cases hc : s.marks.contains [k] with
+    | false => rfl
+    | true =>
+      rcases c1.mp hc with h | ⟨t, ht, hp⟩
+      · simp at h
+      · exact absurd (by simp [hp]) (hn t ht)
+  rw [subMarks_of_heads k s.marks m1, hnot] at g2
+  simp only [filtTV, Bool.false_eq_true, if_false, filterStr] at g2
+  have ha : action mapTag = .redact := by decide
+  simp only [ha, filterLeaf] at g2
+  simp at g2
+  rw [g1, ← g2]
+
+/-- fail closed: a pointer tag that cannot be applied makes Process fail (nothing half filtered is
+forwarded) -/
+theorem tagged_fail_closed (c : Ctx) (ewi : Bool) (tags : List PTag) (es : Items)
+    (h : applyTags c tags { es := es, marks := [] } = none) (hops : ((effOps c.ov).all (· = .none)) = false) :
+    processTagged c ewi tags es = .error := by
+  unfold processTagged
+  simp only [hops, Bool.false_eq_true, if_false]
+  split
+  · rfl
+  · split
+    · rfl
+    · simp [h]
+
+/-- a protecting tag whose value is found but cannot be filtered (here: an unusable classification on a
+string) stops the tag list at once -/
+theorem bad_tag_stops (c : Ctx) (s : TS) (t : PTag) (ts : List PTag) (m : Nat)
+    (hg : getPath t.path s.es = .found (.leaf (.plain m)))
+    (ha : tagAction (fromTagString t.tagString c.ov) = .error) : applyTags c (t :: ts) s = none := by
+  simp [applyTags, applyTag, hg, ha, filterTagged, filterLeaf]
+
+/-- a Taggable map: a secret string, a nested map with a sensitive string and an unnamed one, a
+pointer to a map two levels down, an unnamed string -/
+def demoTagged : Items :=
+  .cons (.key 1) (.leaf (.plain 1))
+  (.cons (.key 2) (.map (.cons (.key 1) (.leaf (.plain 2)) (.cons (.key 2) (.leaf (.plain 3)) .nil)))
+  (.cons (.key 3) (.ptr (.map (.cons (.key 1) (.map (.cons (.key 1) (.leaf (.plain 4)) .nil)) .nil)))
+  (.cons (.key 4) (.leaf (.plain 5)) .nil)))
+
+def demoTags : List PTag :=
+  [ { path := [1], cls := sSecret, op := [] }, { path := [2, 1], cls := sSensitive, op := [] },
+    { path := [3, 1, 1], cls := sSensitive, op := sHmac }, { path := [9], cls := sSecret, op := [] } ]
+
+/-- non-vacuity: the premises of `tagged_noleak` hold of a concrete Taggable map, which is filtered -/
+example : keysOK [] demoTagged = true ∧ guardedEntries demoCtx demoTagged = true := by decide
+example : ∀ t ∈ demoTags, tagAction (fromTagString t.tagString demoCtx.ov) ≠ .keep := by decide
+example : plainsI demoTagged = [1, 2, 3, 4, 5] := by decide
+example : ∃ v', processTagged demoCtx false demoTags demoTagged = .filtered v' ∧ plains v' = [] := by
+  refine ⟨_, rfl, ?_⟩
+  decide
+/-- a public tag keeps exactly its value: everything else is still protected -/
+example : ∃ v', processTagged demoCtx false [{ path := [2, 2], cls := sPublic, op := [] }] demoTagged = .filtered v' ∧ plains v' = [3] := by
+  refine ⟨_, rfl, ?_⟩
+  decide
+/-- a misspelt classification on a found string: Process fails -/
+example : (match processTagged demoCtx false [{ path := [1], cls := [83, 101, 99, 114, 101, 116], op := [] }] demoTagged with
+    | .error => true | _ => false) = true := by decide
+
+end Tagged
 
 end Evl.C09
